@@ -596,11 +596,15 @@ class InProtocolBase(ProtocolMixin):
         seconds = i
         microseconds = int(round(1e6 * f))
 
-        delta = timedelta(days=days, hours=hours, minutes=minutes,
-            seconds=seconds, microseconds=microseconds)
+        try:
+            delta = timedelta(days=days, hours=hours, minutes=minutes,
+                seconds=seconds, microseconds=microseconds)
 
-        if duration['sign'] == "-":
-            delta *= -1
+            if duration['sign'] == "-":
+                delta *= -1
+
+        except OverflowError as e:
+            raise ValidationError(string, "%%r: %s" % (e,))
 
         return delta
 
